@@ -56,7 +56,10 @@ Inductive site :=
 | PBindHistPrevIndex (* GetBindingHistory: prevMtx.TxOut[txIn.PreviousOutPoint.Index] *)
 | PTxTypeIndex       (* getTxType: tx.TxOut[index] *)
 | PVinIndex          (* createVinList: prevTx.TxOut[txIn.PreviousOutPoint.Index] *)
-| PRewardTxOut       (* GetBlockStakingReward: txOuts[j] for j < NumStakingReward() *).
+| PRewardTxOut       (* GetBlockStakingReward: txOuts[j] for j < NumStakingReward() *)
+(* masswallet/keystore/manager.go *)
+| PCurEvictedNil     (* GetManagedAddressByScriptHashInCurrent: km.managedKeystores[km.currentKeystore.accountName].addrs when the cache
+                        has lost the entry of the keystore that is still selected *).
 
 Inductive outcome (A : Type) :=
 | Ok (a : A)
